@@ -284,7 +284,9 @@ class Ctx:
             shutil.copytree(SPEC, d)
             sw = tree_switches()
             subst = {"@SPINS@": "TRUE" if sw["retry_same_spins"] else "FALSE",
-                     "@FORWARDS@": "TRUE" if sw["reprepare_fail_forwards"] else "FALSE"}
+                     "@FORWARDS@": "TRUE" if sw["reprepare_fail_forwards"] else "FALSE",
+                     "@HOLDS@": "TRUE" if sw["closing_holds_lock"] else "FALSE",
+                     "@STICKS@": "TRUE" if sw["retry_same_sticks"] else "FALSE"}
             for f in os.listdir(d):
                 if f.endswith(".cfg"):
                     t = open(os.path.join(d, f)).read()
